@@ -810,7 +810,9 @@ class Server():
 
             if responder.ended:
                 requestant = self.reqs[ca]
-                if requestant.persisted:
+                # response without length or chunking is only delimited by close
+                framed = responder.chunked or responder.length is not None
+                if requestant.persisted and framed:
                     if requestant.parser is None:  # reuse
                         requestant.makeParser()  # resets requestant parser
                 else:  # not persistent so close and remove requestant and responder
